@@ -18,7 +18,7 @@ fn ptr_script() {
     if let Some(b) = b.as_ref() {
         assert!(**b == v && !Ptr::ptr_eq(&a, b), "C19.ptr: make_mut never changes what other owners see");
     }
-    assert!((a == Ptr::from(w)) && (Ptr::from(v) < Ptr::from(w)) == (v < w), "C19.ptr: comparisons go through to the value");
+    assert!((a == Ptr::<u32>::from(w)) && (Ptr::<u32>::from(v) < Ptr::<u32>::from(w)) == (v < w), "C19.ptr: comparisons go through to the value");
     kani::cover!(shared && v != w, "copy on write");
 }
 
